@@ -263,7 +263,12 @@ class Session:
                 col_before = [str(x) for x in t._data[t._index]]
                 if kind == "setcol":
                     arr = col_array(op["vals"])
-                    if op.get("attr"):
+                    via = op.get("via")
+                    if via and via[0] == "slice":      # the same new column, written through a slice of cells
+                        t[op["name"], slice(via[1], via[2])] = arr[slice(via[1], via[2])]
+                    elif via and via[0] == "list":     # ... or through a list of positions
+                        t[op["name"], list(via[1])] = arr[list(via[1])]
+                    elif op.get("attr"):
                         setattr(t, op["name"], arr)
                     else:
                         t[op["name"]] = arr
@@ -457,11 +462,16 @@ class Session:
                                                                     np.asarray(src._data[k], dtype=object)):
                             self.fail("C14", "scalar-not-carried", {"step": stp, "scalar": k, "value": repr(src._data[k])[:40]})
                             break
-        elif kind == "exprcol" and exc == "ok":
+        elif kind == "exprcol":
             st["c14_exprcols"] = st.get("c14_exprcols", 0) + 1
             env = {c: np.array(t._data[c]) for c in t._col_names}
-            want = [cell_json(x) for x in eval(op["expr"], {"np": np}, env)]
-            if val != want:
+            try:
+                want = [cell_json(x) for x in eval(op["expr"], {"np": np, "sqrt": np.sqrt, "abs": np.abs}, env)]
+            except Exception:
+                want = None         # the expression itself is not evaluable on these columns
+            if want is not None and exc != "ok":
+                self.fail("C14", "expression-column-raises", {"expr": op["expr"], "exc": exc, "columns": list(t._col_names)})
+            elif want is not None and val != want:
                 self.fail("C14", "expression-column-not-elementwise", {"expr": op["expr"], "got": val, "want": want})
         elif kind in ("indices", "mask", "rows"):
             vals = {k: (v.tolist() if hasattr(v, "tolist") else v) for k, v in t._data.items() if k in t._col_names}
@@ -633,8 +643,24 @@ def gen_c07(rng, sess):
             c = rng.choice(["name", "w"])
             sess.step({"op": "setcell", "col": c, "row": gen_row(rng, col, names),
                        "val": (rng.choice(names) if rng.random() < 0.7 else "q") if c == "name" else rng.randint(5, 9)})
-        elif r < 0.34:
+        elif r < 0.30:
             sess.step({"op": "setcol", "name": "name", "vals": [rng.choice(names) for _ in range(n)], "attr": rng.random() < 0.4})
+        elif r < 0.34 and n:
+            # several cells of the index column at once (slice / list of positions): for the model this is the
+            # assignment of the resulting column
+            lo = rng.randrange(n)
+            hi = rng.randint(lo + 1, n)
+            newcol = list(col)
+            if rng.random() < 0.6:
+                for i in range(lo, hi):
+                    newcol[i] = rng.choice(names + ["zz"])
+                via = ["slice", rng.choice([lo, lo, None]) if lo == 0 else lo, hi if hi < n or rng.random() < 0.5 else None]
+            else:
+                pos = sorted(rng.sample(range(n), rng.randint(1, min(3, n))))
+                for i in pos:
+                    newcol[i] = rng.choice(names + ["zz"])
+                via = ["list", pos]
+            sess.step({"op": "setcol", "name": "name", "vals": newcol, "via": via})
         elif r < 0.38:
             sess.step({"op": "setcol", "name": "x%d" % stepi, "vals": list(range(n))})
         elif r < 0.41:
@@ -713,9 +739,16 @@ def gen_c14(rng, sess):
                     op2["then"] = rng.choice([["newcol", "extra_y"], ["delcol", rng.choice(["v", "w", "s"])]])
                 sess.step(op2)
         elif r < 0.85:
-            sess.step({"op": "exprcol", "expr": rng.choice(["v+2*w", "v*w-x", "x/2+v", "np.sqrt(x)+w", "v**2"]), "via_cols": rng.random() < 0.4})
+            exprs = ["v+2*w", "v*w-x", "x/2+v", "np.sqrt(x)+w", "v**2"]
+            # columns named like a numpy function: in an expression the name means the column
+            if "power" in t._col_names:
+                exprs += ["power+2*v", "power/2", "sqrt(x)+power"]
+            if "sign" in t._col_names:
+                exprs += ["sign*w", "abs(w)-sign"]
+            sess.step({"op": "exprcol", "expr": rng.choice(exprs), "via_cols": rng.random() < 0.4})
         else:
-            sess.step({"op": "setcol", "name": "new%d" % rng.randint(0, 3), "vals": list(range(n))})
+            sess.step({"op": "setcol", "name": rng.choice(["new%d" % rng.randint(0, 3), "power", "sign"]),
+                       "vals": [rng.randint(-3, 4) for _ in range(n)]})
 
 
 def exhaustive_c08(sess_factory, k):
